@@ -42,6 +42,7 @@ class State:
         self.rerr_at = None
         self.last_wopen = None
         self.run_faults = {}      # slug -> [kind, at]
+        self.rev = {}             # slug -> revision of the external resource its run body reads (0 when absent)
         self.run_counter = 0
         self.proc = 0
         self.out_fd = None
@@ -436,7 +437,11 @@ def _generic_run(self, cspec, argvals):
     h = V.digest(record)
     rec['h'] = h
     kind = cspec['kind']
-    value = V.make_value(kind, h)
+    # an external resource the body reads besides its declared inputs (the reason users force): its revision shapes the value
+    rev = ST.rev.get(slug, 0)
+    if rev:
+        rec['rev'] = rev
+    value = V.make_value_rev(kind, h, rev)
     for j in range(cspec.get('nlog', 0)):
         self.logger.info(f'marker {runid} step {j}')
         self.save_to_run_info({'marker': runid, 'n': j + 1})
@@ -1133,6 +1138,10 @@ class Proc:
     def op_armrun(self, op):
         ST.run_faults[op['slug']] = [op['kind'], op.get('at')]
         return {'armed': True}
+
+    def op_rev(self, op):
+        ST.rev = dict(op['map'])
+        return {'ok': True}
 
     def op_disarm(self, op):
         ST.run_faults.clear()
